@@ -287,14 +287,16 @@ def oracle(ctx):
         return n1 - n0, n2 - n0
 
     def histories(make_out, leaves, name, info):
-        for hist in ("forward", "forward+backward", "forward+backward(create_graph)+backward"):
+        # (the recorded backward whose gradient is simply dropped - no second backward that would free the recorded graph - is a
+        # history of its own: round-4 seed C19/10 leaked only there)
+        for hist in ("forward", "forward+backward", "forward+backward(create_graph)", "forward+backward(create_graph)+backward"):
             def once():
                 out = make_out()
                 if hist == "forward":
                     return
                 lv = [l for l in leaves if l.requires_grad]
                 g = torch.autograd.grad(out.sum(), lv, create_graph=(hist != "forward+backward"), allow_unused=True)
-                if hist != "forward+backward":
+                if hist == "forward+backward(create_graph)+backward":
                     s = sum((x * x).sum() for x in g if x is not None)
                     if s.requires_grad:
                         torch.autograd.grad(s, lv, allow_unused=True)
